@@ -1,17 +1,20 @@
 """C06 — infix blocks mean what the precedence table says.
-Theorems: lean/ZygoVerif/Props/C06.lean over Model/Pratt.lean (follows zygo/pratt.go) and
-Spec/Stratified.lean (documented levels as data). Ties: T1 Generated/InfixTable.lean
-(regenerated from InitInfixOps/LeftBindingPower by extract/ex_infixtable.go, cross-checked
-against the live env.infixOps), T2 channel `expand` (real lexer + parser + InfixBuilder vs
-model vs stratified spec), then the value phase (value and effects of {…} vs value of the
-prefix form the SPEC computed)."""
+Theorems: lean/ZygoVerif/Props/C06.lean over Model/Pratt.lean (follows zygo/pratt.go),
+Spec/Stratified.lean (documented levels as data), Spec/Spacing.lean (legal spacings, on
+characters), Model/Lexer.lean + Model/Parser.lean + Model/InfixFront.lean (front end).
+Ties: T1 Generated/InfixTable.lean (regenerated from InitInfixOps/LeftBindingPower by
+extract/ex_infixtable.go, cross-checked against the live env.infixOps), T2 channel `expand`:
+`tree` (real lexer + parser + InfixBuilder vs Pratt model vs stratified spec), `ltoks` (real
+lexer vs lexer model vs the token sequence, for legal spacings), `ltree` (real front end +
+expander vs lexer model + parser model + Pratt model vs stratified spec, for legal spacings),
+then the value phase (value and effects of {…} vs value of the prefix form the SPEC computed)."""
 import json, os
 import vcommon as V
 
 META = dict(
-    text="Lean 4 theorems (Props/C06.lean): the operator table regenerated from InitInfixOps induces exactly the documented order, partition and associativity of levels (decide over the whole table, numbers not compared); the Pratt loop of pratt.go (model) returns, for EVERY token list of the covered fragment including malformed ones, the same tree and the same unconsumed rest as a textbook stratified recursive-descent parser over those levels; statements of a block are expanded in order. A unit test can only sample operator pairs and spacings; the theorem covers all token lists, and the exhaustive correspondence (all operator pairs and triples x spacings through the real lexer) ties the model to the code.",
-    note="Trusted: Lean kernel; axioms propext/Classical.choice/Quot.sound; the extractor zyx (syntactic, cross-checked against the live env.infixOps each run); Model/Pratt.lean is hand-written and tied to zygo/pratt.go, lexer.go, parser.go by the `expand` correspondence (differential testing: exhaustive operator pairs/triples with spacing variants, sampled longer sequences, structured blocks, arbitrary token lists). The lexer is not modelled: that a legal spacing of a token sequence lexes to that sequence is tested, not proved. if/else, for lowering, ++/-- followed by a tighter operator are outside the theorem (correspondence only).",
-    technique="Lean 4 proof (Pratt loop = stratified grammar, table facts by decide) + model/implementation correspondence through the real lexer and parser",
+    text="Lean 4 theorems (Props/C06.lean). (1) table_is_documented: the operator table regenerated from InitInfixOps induces exactly the documented order, partition and associativity of levels (decide over the whole table, numbers not compared). (2) pratt_iff_stratified / expand_iff_statements: for EVERY token list of the fragment (any length, selectors nested to any depth, malformed lists included) the Pratt loop of pratt.go (model, regenerated table) returns a tree and rest iff the textbook stratified recursive-descent parser over the documented levels returns them, and InfixExpandArray returns a statement list iff it is the list of stratified statements (fuel-free form: 'returns with enough fuel'; induction on the token list, the loop cut at each level's binding power, stop property of Expression; the table/grammar link corr_generated is re-established by decide on every run with the binding powers read off the table). (3) lex_spacing: for EVERY token sequence (names, dotted paths, decimal and float numerals, the operators written with operator characters, brackets, comma, semicolon) and EVERY legal spacing of it (Spec/Spacing.lean: a blank is needed only between two words, between characters that would spell another operator or open a comment, before a signed numeral that follows a word or closing bracket, and after a binary minus that follows a blank and precedes a digit) the lexer model reads exactly that token sequence; the four exclusions are shown necessary by counterexample theorems (`a -1` reads as `a`, `-1`: the sign look-back, known finding). (4) infix_text_tokens / text_means_stratified: the text of a block in any legal spacing, nested [ ], ( ), { } to any depth, goes through the lexer and parser models to a token array that depends on the source tree alone, and its expansion is the stratified statement list. A unit test can only sample operator pairs and spacings; the theorems cover all sequences and all legal spacings, and the exhaustive correspondence ties the models to the code.",
+    note="Trusted: Lean kernel; axioms propext/Classical.choice/Quot.sound; the extractor zyx (syntactic, cross-checked against the live env.infixOps each run); Model/Pratt.lean, Model/Lexer.lean, Model/Parser.lean, Model/InfixFront.lean are hand-written and tied to zygo/pratt.go, lexer.go, parser.go, comment.go by correspondence (differential testing: `lex`/`parse` channels of C13/C12 rune by rune, and here `expand`: exhaustive operator pairs/triples with spacing variants, every none/blank combination of the gaps of every operator pair through the lexer alone and end to end, random gap kinds, structured blocks, arbitrary token lists, the excluded adjacencies). Not proved: that the fuel the executable models use (fuelFor) always suffices — the unbounded theorems are about 'returns with enough fuel', expandBlock_eq_parseBlock says the two executable functions agree whenever both return, pratt_eq_stratified_partial (bounded, kernel-checked) and the correspondence check the fuel; PrattEqStratified for EVERY well-formed table (only the regenerated one is covered). Outside the fragment of the Pratt theorem (specification silent, model = implementation by correspondence only): if/else, for lowering, break/continue, ++/-- or a prefix-only operator directly followed by a tighter operator, the undotted symbol `.`. Outside lex_spacing: labels and slices written with a colon, string/char literals inside blocks (the lexer-level theorem LegalFrom has them), comments in gaps.",
+    technique="Lean 4 proof (Pratt loop = stratified grammar by induction on the token list under a table/grammar correspondence discharged by decide; lexer model reads every legal spacing as the token sequence, induction over the token list; parser model on the token queue, induction over the source tree; table facts by decide) + model/implementation correspondence through the real lexer, parser and expander",
     design_ref="DESIGN.md §7 C06",
 )
 
@@ -39,9 +42,11 @@ def run(rep):
     ok = V.lean_phase(rep, prep, "ZygoVerif.Props.C06")
     rep.assumptions += [
         "Model/Pratt.lean is hand-written; tied to zygo/pratt.go (+ the lexer and parser in front of it) by the `expand` correspondence only",
-        "the lexer is not modelled: `lex (render ts spacing) = ts` is tested on every generated op (three spacing variants), not proved",
+        "Model/Lexer.lean and Model/Parser.lean (C13/C12) are hand-written; lex_spacing and infix_text_tokens are theorems about them; they are tied to lexer.go/parser.go by the `lex`/`parse` channels and here by `expand ltoks`/`ltree` (impl vs model on every spacing generated, legal or not; impl vs spec on the legal ones)",
+        "the unbounded Pratt theorems are fuel-free ('returns … with enough fuel'); that fuelFor suffices is checked by the bounded theorem and the correspondence, not proved",
+        "labels and slice bounds written with a colon, string/char literals and comments inside blocks are outside Spec/Spacing (covered by the `tree`/`ltree` correspondence only)",
         "extract/ex_infixtable.go reads InitInfixOps and LeftBindingPower syntactically; its table is compared with the live env.infixOps on every run (op `expand ops`)",
-        "if/else, go-style for, break/continue, and ++/-- or a prefix-only operator directly followed by a tighter operator are outside pratt_eq_stratified (model = implementation by correspondence only)",
+        "if/else, go-style for, break/continue, and ++/-- or a prefix-only operator directly followed by a tighter operator are outside pratt_iff_stratified (the specification is silent; model = implementation by correspondence only)",
         "value phase: the prefix form is evaluated by the same interpreter (C02 is a separate property)",
     ]
     if not (prep["ok_drv"] and prep["ok_harness"]):
@@ -52,6 +57,14 @@ def run(rep):
     def nontrivial(op, impl):
         return impl not in ("err", "bad-op", "-empty-")
     bad_spec, bad_model = V.correspondence(rep, "expand", rows, stats, nontrivial=nontrivial)
+    # how often the spacing specification spoke (legal spacing of tokens of its classes)
+    sp = {"ltoks-legal": 0, "ltoks-silent": 0, "ltree-legal-and-in-scope": 0, "ltree-silent": 0}
+    for op, impl, model, spec in rows:
+        if op.startswith("expand ltoks "):
+            sp["ltoks-silent" if spec == "-" else "ltoks-legal"] += 1
+        elif op.startswith("expand ltree "):
+            sp["ltree-silent" if spec == "-" else "ltree-legal-and-in-scope"] += 1
+    rep.coverage["channels"]["expand"]["spacing_spec"] = sp
     # ---- phase 2: value and effects of the block vs the prefix form computed by the SPEC
     vops, seen = [], set()
     limit = 2000 if rep.tier == "quick" else 60000
@@ -95,5 +108,8 @@ def run(rep):
                             "in three spacings (all spaces / as tight as the lexer allows / random), every operator pair with 10 operand shapes "
                             "(plain, not x, x[i], dotted path, (call), {nested}, x[1:j], literal, *x, x[i+1].k) sampled, 4-6 operator sequences sampled, "
                             "structured blocks (assignments, if/else, three go-style for forms, labels, nested blocks, calls, selectors), arbitrary token lists; "
+                            "lex_spacing streams: every none/blank combination of the four gaps of every operator pair (through the lexer alone, `ltoks`, and end to end, `ltree`), "
+                            "every pair of the lexer's operator texts around names, numerals, signed numerals and floats with signed exponents in every none/blank combination (sampled 1/3 in quick), adjacent operators, "
+                            "random sequences and structured blocks with random gap kinds (none, blank, tab, newline, CR LF, double blank), and the adjacencies the spacing rules exclude (malformed stream: impl vs model only); "
                             "thorough: all 4-operator sequences and 20-40x the samples. An op is non-trivial when the implementation produced a tree.")
     V.proof_break_resolution(rep, bool(bad_spec) or bool(bad_val))
